@@ -1,6 +1,8 @@
 package props
 
 import (
+	"github.com/skx/evalfilter/v2/object"
+	"regexp"
 	"bytes"
 	"context"
 	"encoding/json"
@@ -92,7 +94,26 @@ func runDiff(c *DiffCase) (changed bool, outcome string, err error) {
 		objs = []*eng.ObjSpec{{Mode: "map"}}
 	}
 	outcome = "value"
+	// one more run after the host has registered a function of its own under
+	// the name of one of the script's functions (which scripts: a digest of
+	// the text decides): whatever that means for the script, it means the
+	// same for both programs
+	late := -1
+	var lateName string
+	if m := funcNameRe.FindAllStringSubmatch(c.Script, -1); len(m) > 0 && evid.Digest("c03late"+c.Script)%3 == 0 {
+		late = len(objs)
+		lateName = m[int(evid.Digest("c03latename"+c.Script)%uint64(len(m)))][1]
+		objs = append(append([]*eng.ObjSpec{}, objs...), objs[0])
+	}
 	for i, os := range objs {
+		if i == late {
+			for _, r := range []*eng.Runner{opt, raw} {
+				r.E.AddFunction(lateName, func(args []object.Object) object.Object { return &object.String{Value: "host-" + lateName} })
+			}
+			if evid.Current != nil {
+				evid.Current.Class("host-function-registered-late-under-a-script-name")
+			}
+		}
 		a := opt.Execute(os.Build())
 		b := raw.Execute(os.Build())
 		if isTimeout(a.Err) || isTimeout(b.Err) {
@@ -126,6 +147,8 @@ func runDiff(c *DiffCase) (changed bool, outcome string, err error) {
 	}
 	return changed, outcome, nil
 }
+
+var funcNameRe = regexp.MustCompile(`function\s+([A-Za-z_][A-Za-z0-9_]*)\s*\(`)
 
 func isTimeout(err error) bool {
 	return err != nil && strings.Contains(err.Error(), "timeout during execution")
